@@ -630,6 +630,9 @@ struct IcyCase {
     flags: u8,
     mode: u8,
     sauce: Option<SauceModel>,
+    /// FONT_n chunks placed in front of the layer chunks: (slot n, index into STATE_FONTS); the state a cell's font page can refer to
+    #[serde(default)]
+    fonts: Vec<(u8, u8)>,
 }
 
 const ATTR_INVISIBLE: u16 = 0x8000;
@@ -780,6 +783,13 @@ fn icy_file(c: &IcyCase) -> (Vec<u8>, usize) {
         f.extend(&t.font_psf);
         chunks.push(("FONT_1".into(), f));
     }
+    for (slot, f) in c.fonts.iter().take(2) {
+        let f = (*f as usize % (STATE_FONTS.len() - 1)) + 1;
+        let mut d = Vec::new();
+        len_prefixed(&mut d, b"state font");
+        d.extend(state_font_bytes(f));
+        chunks.push((format!("FONT_{}", slot % 8), d));
+    }
     let first = pick(c.split, height + 1).min(height);
     let mut l = Vec::new();
     len_prefixed(&mut l, &c.title);
@@ -883,8 +893,15 @@ fn icy_strategy() -> BoxedStrategy<IcyCase> {
         0u8..=2,
         prop::option::weighted(0.25, sauce_model()),
         0u8..8,
+        // 0..=2 fonts in slots 0..=3; the large ones cost milliseconds to load, so most files carry none
+        prop_oneof![
+            30 => Just(Vec::new()),
+            2 => vec((0u8..=3, 1u8..=3), 1..=2),
+            2 => vec((0u8..=3, prop_oneof![3 => 4u8..=6, 1 => 7u8..=8]), 1..=1),
+            1 => ((0u8..=3, 4u8..=6), (0u8..=3, 1u8..=3)).prop_map(|(a, b)| vec![a, b]),
+        ],
     )
-        .prop_map(|(mut title, mut font_name, min_w, mut rows, split, cont_rows, flags, mode, sauce, keep)| {
+        .prop_map(|(mut title, mut font_name, min_w, mut rows, split, cont_rows, flags, mode, sauce, keep, fonts)| {
             // `keep` says which of the three kinds of ill-formed content stay in the file (so that each site is also met alone)
             if keep & 1 == 0 {
                 for cell in rows.iter_mut().flatten() {
@@ -900,7 +917,7 @@ fn icy_strategy() -> BoxedStrategy<IcyCase> {
             if keep & 4 == 0 {
                 font_name = font_name.as_ref().map(lossy);
             }
-            IcyCase { title, font_name, min_w, rows, split, cont_rows, flags, mode, sauce }
+            IcyCase { title, font_name, min_w, rows, split, cont_rows, flags, mode, sauce, fonts }
         })
         .boxed()
 }
@@ -923,6 +940,7 @@ fn icy_table(i: u64) -> IcyCase {
         flags: 0b01001,
         mode: 0,
         sauce: None,
+        fonts: Vec::new(),
     };
     let nchar = window_total(ICY_CHAR_WINDOWS);
     if i < 2 * nchar {
@@ -947,6 +965,62 @@ fn icy_table(i: u64) -> IcyCase {
     c
 }
 
+/// glyph count of the largest font the file carries in a FONT_n chunk
+fn icy_max_font(c: &IcyCase) -> u32 {
+    c.fonts.iter().take(2).map(|(_, f)| STATE_FONTS[(*f as usize % (STATE_FONTS.len() - 1)) + 1].1).max().unwrap_or(0)
+}
+
+fn icy_state_key(c: &IcyCase) -> &'static str {
+    if icy_max_font(c) > 0xD800 {
+        "|state=big_font"
+    } else {
+        ""
+    }
+}
+
+/// Files whose FONT_1 (and FONT_2) chunk precedes the layer: one file walks a whole number table through the cells of one layer.
+/// index = ((font 1..=8) x (cell font page: 1 = the font's slot, 2 = the next slot, 0) x (first / continuation chunk) x (long / short records)) 
+const ICY_FONT_FILES: u64 = 8 * 3 * 2 * 2;
+
+fn icy_font_file(i: u64) -> IcyCase {
+    let short = i % 2 == 1;
+    let cont = (i / 2) % 2 == 1;
+    let page = [1u16, 2, 0][((i / 4) % 3) as usize];
+    let f = ((i / 12) % 8) as u8 + 1;
+    let count = STATE_FONTS[f as usize].1;
+    let values: Vec<u32> = if short {
+        (0..=255).collect()
+    } else {
+        let mut v: Vec<u32> = (0xD7F0..=0xE010).collect();
+        v.extend([0, 0xFF, 0x100, 0x1FF, 0x200, 0xFFFF, 0x1_0000, 0x1_FFFF, 0x2_0000, 0x10_FFFF, 0x11_0000, 0x7FFF_FFFF, 0xFFFF_FFFF]);
+        v.extend([count.saturating_sub(2), count - 1, count, count + 1]);
+        v
+    };
+    let cell = |ch: u32| IcyCell { kind: if short { 1 } else { 2 }, attr: 0, ch, fg: 7, bg: 0, page };
+    let mut rows: Vec<Vec<IcyCell>> = vec![vec![IcyCell { kind: 2, attr: 0, ch: 0x41, fg: 7, bg: 0, page: 0 }]];
+    rows.extend(values.chunks(64).map(|r| r.iter().map(|v| cell(*v)).collect::<Vec<_>>()));
+    // second font: a 256-glyph font in the next slot on every other font index
+    let mut fonts = vec![(1u8, f - 1)];
+    if f % 2 == 0 {
+        fonts.push((2, 0));
+    }
+    // smallest split for which pick(split, rows + 1) = 1
+    let one_row = ((65536 + rows.len()) / (rows.len() + 1)) as u16;
+    IcyCase {
+        title: Bytes(b"fonts".to_vec()),
+        font_name: None,
+        min_w: 64,
+        rows,
+        // continuation: only the first row (one cell) stays in LAYER_0
+        split: if cont { one_row } else { 0xFFFF },
+        cont_rows: if cont { 8 } else { 0 },
+        flags: 0b01001,
+        mode: 0,
+        sauce: None,
+        fonts,
+    }
+}
+
 fn check_icy(c: &IcyCase) -> Verdict {
     let (file, first) = icy_file(c);
     // what the model says is dangerous, and where
@@ -969,11 +1043,11 @@ fn check_icy(c: &IcyCase) -> Verdict {
     if !bad.is_empty() {
         // attribute the stored value to the chunk that carried it
         if let Some(b) = bad.iter().find(|b| bad_first.contains(&b.value)) {
-            return Verdict::fail("invalid_char.cell|source=icy_layer", format!("after loading an .icy file whose LAYER_0 chunk has a long-form char field {:#x}: {}", b.value, b.describe()));
+            return Verdict::fail(format!("invalid_char.cell|source=icy_layer{}", icy_state_key(c)), format!("after loading an .icy file whose LAYER_0 chunk has a long-form char field {:#x}: {}", b.value, b.describe()));
         }
         if let Some(b) = bad.iter().find(|b| bad_cont.contains(&b.value)) {
             return Verdict::fail(
-                "invalid_char.cell|source=icy_layer_cont",
+                format!("invalid_char.cell|source=icy_layer_cont{}", icy_state_key(c)),
                 format!("after loading an .icy file whose continuation chunk LAYER_0~k has a long-form char field {:#x}: {}", b.value, b.describe()),
             );
         }
@@ -1473,6 +1547,8 @@ enum MacroItem {
     Byte(u8),
     /// `!count;` hex bytes `;`
     Repeat(u8, Vec<u8>),
+    /// the same with a count that is not reduced (size-limit probes; hex encoding only, once in text encoding)
+    BigRepeat(u32, Vec<u8>),
 }
 
 #[derive(Clone, Debug, Hash, Serialize, Deserialize)]
@@ -1511,6 +1587,17 @@ fn macro_stream(c: &MacroCase) -> Vec<u8> {
                     for _ in 0..(n % 9) {
                         v.extend(bs.iter().map(|b| textb(*b)));
                     }
+                }
+            }
+            MacroItem::BigRepeat(n, bs) => {
+                if c.hex {
+                    v.extend(format!("!{n};").into_bytes());
+                    for b in bs {
+                        v.extend(hexb(*b));
+                    }
+                    v.push(b';');
+                } else {
+                    v.extend(bs.iter().map(|b| textb(*b)));
                 }
             }
         }
@@ -1562,6 +1649,32 @@ fn macro_table(i: u64) -> MacroCase {
     MacroCase { id: 1, hex: variant != 3, lower: variant == 1, body, invoke: 1, state }
 }
 
+/// Size-limit probes: a repeat section that makes the stored macro body as long as a limit would plausibly be (2^15-1, 2^16, 2^19,
+/// 32767*16 +-2, 2^20 bytes or characters), with content that is two bytes per character in the stored String, at both parities.
+const MACRO_BIG_COUNTS: &[u32] = &[32766, 32767, 65535, 65536, 131071, 262136, 262137, 300000, 524271, 524272, 524273, 524274, 1048575, 1048576];
+const MACRO_BIG_BODIES: &[&[u8]] = &[b"\xE9", b"\x41\xE9", b"\xE9\x41", b"\xC3\xA9", b"\xF0\x9F\x98\x80", b"\xE9\x41\x41"];
+/// the stored body stays below this many bytes (a high byte is stored as two)
+const MACRO_BIG_MAX: u64 = 2_300_000;
+
+fn macro_size_cases() -> Vec<MacroCase> {
+    let mut v = Vec::new();
+    for &n in MACRO_BIG_COUNTS {
+        for body in MACRO_BIG_BODIES {
+            let stored: u64 = body.iter().map(|b| if *b >= 0x80 { 2u64 } else { 1 }).sum::<u64>() * n as u64;
+            if stored > MACRO_BIG_MAX {
+                continue;
+            }
+            for prefix in 0..=2usize {
+                let mut items: Vec<MacroItem> = std::iter::repeat(MacroItem::Byte(b'A')).take(prefix).collect();
+                items.push(MacroItem::BigRepeat(n, body.to_vec()));
+                items.push(MacroItem::Byte(0xE9));
+                v.push(MacroCase { id: 3, hex: true, lower: false, body: items, invoke: 1, state: TermState::default() });
+            }
+        }
+    }
+    v
+}
+
 fn macro_high_bytes(c: &MacroCase) -> usize {
     c.body
         .iter()
@@ -1569,6 +1682,13 @@ fn macro_high_bytes(c: &MacroCase) -> usize {
             MacroItem::Byte(b) => usize::from(*b >= 0x80),
             MacroItem::Repeat(n, bs) => {
                 if n % 9 > 0 {
+                    bs.iter().filter(|b| **b >= 0x80).count()
+                } else {
+                    0
+                }
+            }
+            MacroItem::BigRepeat(n, bs) => {
+                if *n > 0 {
                     bs.iter().filter(|b| **b >= 0x80).count()
                 } else {
                     0
@@ -2025,7 +2145,10 @@ fn main() {
 
     // (iii) IcyDraw
     eng.enumerated_with_class(PartCfg::new("icy_table", 0, 0).isolated().heap_cap(512 << 20).shrink_budget(400).exhaustive(true).threads(1), icy_table_total(), icy_table, check_icy, |_| "source=icy".to_string());
-    eng.generated_with_class(PartCfg::new("icy", 100_000, 1_000_000).isolated().heap_cap(512 << 20).shrink_budget(400), icy_strategy, check_icy, |_| "source=icy".to_string());
+    eng.enumerated_with_class(PartCfg::new("icy_fonts", 0, 0).isolated().heap_cap(512 << 20).shrink_budget(400).exhaustive(true).threads(4), ICY_FONT_FILES, icy_font_file, check_icy, |c| {
+        format!("source=icy{}", icy_state_key(c))
+    });
+    eng.generated_with_class(PartCfg::new("icy", 100_000, 1_000_000).isolated().heap_cap(512 << 20).shrink_budget(400), icy_strategy, check_icy, |c| format!("source=icy{}", icy_state_key(c)));
 
     // (iv) fonts
     eng.enumerated_with_class(PartCfg::new("font_table", 0, 0).isolated().heap_cap(512 << 20).shrink_budget(400).exhaustive(true).threads(4), FONT_COUNTS.len() as u64 * 12, font_table, check_font, |c| {
@@ -2040,6 +2163,14 @@ fn main() {
     eng.generated_with_class(PartCfg::new("font_unitab", 40_000, 600_000).isolated().heap_cap(512 << 20).shrink_budget(400), unitab_strategy, check_unitab, |c| format!("source={}", unitab_src(c)));
 
     eng.enumerated_with_class(PartCfg::new("macro_bytes", 0, 0).isolated().heap_cap(512 << 20).shrink_budget(400).exhaustive(true).threads(1), 3 * MACRO_TABLE_BASE, macro_table, check_macro, |c| format!("source={}", macro_src(c)));
+    let sizes = macro_size_cases();
+    eng.enumerated_with_class(
+        PartCfg::new("macro_sizes", 0, 0).isolated().heap_cap(1 << 30).shrink_budget(400).exhaustive(true).threads(16).timeout_ms(60_000),
+        sizes.len() as u64,
+        move |i| sizes[i as usize].clone(),
+        check_macro,
+        |c| format!("source={}", macro_src(c)),
+    );
     eng.generated_with_class(PartCfg::new("macros", 100_000, 1_000_000).isolated().heap_cap(512 << 20).shrink_budget(400), macro_strategy, check_macro, |c| format!("source={}", macro_src(c)));
 
     // (vi) scalar streams
